@@ -43,9 +43,9 @@ objB1 := {B: m{true}}
 var poolSpecs = []poolSpec{
 	// ints
 	{"0", "int", "zero"}, {"1", "int", ""}, {"-1", "int", ""}, {"2", "int", ""}, {"-2", "int", ""}, {"7", "int", ""},
-	{"63", "int", ""}, {"64", "int", ""}, {"2147483648", "int", ""}, {"-2147483648", "int", ""},
-	{"9007199254740992", "int", ""}, {"9007199254740993", "int", ""}, {"9223372036854775807", "int", "extreme"},
-	{"-9223372036854775807", "int", "extreme"}, {"(-9223372036854775807 - 1)", "int", "extreme"},
+	{"63", "int", ""}, {"64", "int", ""}, {"2147483648", "int", "big"}, {"-2147483648", "int", "big"},
+	{"9007199254740992", "int", "big"}, {"9007199254740993", "int", "big"}, {"9223372036854775807", "int", "extreme big"},
+	{"-9223372036854775807", "int", "extreme big"}, {"(-9223372036854775807 - 1)", "int", "extreme big"},
 	// floats
 	{"0.0", "float", "zero"}, {"1.5", "float", ""}, {"-1.5", "float", ""}, {"1.0", "float", ""}, {"2.0", "float", ""}, {"1.0e308", "float", ""},
 	{"0.1", "float", ""}, {"inf", "float", "inf"}, {"-inf", "float", "inf"}, {"nan", "float", "nan"},
